@@ -26,7 +26,7 @@ ctl('c03_swallow_emit_error', 'send_metric ignores the emit result', [(CL, "    
 ctl('c03_handler_on_success', 'handler also invoked on success', [(B, "                if let Err(e) = self.try_send() {\n                    client.consume_error(e);\n                }", "                match self.try_send() {\n                    Err(e) => client.consume_error(e),\n                    Ok(_) => client.consume_error(MetricError::from((ErrorKind::InvalidInput, \"ok\"))),\n                }")], {'C03': ['R4/send/handler-exactly-once-on-failure']})
 ctl('c04_gauge_no_container', 'gauge loses the default container id', [(CL, "MetricFormatter::gauge(&self.prefix, key, v), self)\n                .with_tags(self.tags())\n                .with_container_id_opt(self.container_id.as_deref()),", "MetricFormatter::gauge(&self.prefix, key, v), self)\n                .with_tags(self.tags()),")], {'C04': ['R1/gauge_with_tags/default-tags-and-container-id-applied']}, True)
 ctl('c04_decr_plus', 'decr counts +1', [(CL, "        self.count_with_tags(key, -1)", "        self.count_with_tags(key, 1)")], {'C04': ['R4/decr_with_tags']}, True)
-ctl('c04_tags_rev', 'default tags iterated in reverse', [(CL, "self.tags.iter().map(|(k, v)| (k.as_deref(), v.as_str()))", "self.tags.iter().rev().map(|(k, v)| (k.as_deref(), v.as_str()))")], {'C04': ['R2/client-tags-forward-iteration']})
+ctl('c04_tags_rev', 'default tags iterated in reverse', [(CL, "self.tags.iter().map(|(k, v)| (k.as_deref(), v.as_str()))", "self.tags.iter().rev().map(|(k, v)| (k.as_deref(), v.as_str()))")], {'C04': ['R2/']})
 ctl('c05_bypass_ge', 'bypass guard required >= capacity', [(IO, "        if required > self.capacity {", "        if required >= self.capacity {")], {'C05': ['M1/'], 'C06': ['M1/'], 'C12': ['M1/']}, True)
 ctl('c05_half_bufwriter', 'BufWriter half the capacity', [(IO, "inner: BufWriter::with_capacity(cap, inner),", "inner: BufWriter::with_capacity(cap / 2, inner),")], {'C05': ['M9/bufwriter-capacity-is-cap'], 'C06': ['M9/'], 'C13': ['M9/'], 'C19': ['M9/']}, True)
 ctl('c05_adapter_half', 'UDP adapter sends half the buffer', [(UDP, "self.stats.update(self.socket.send_to(buf, self.addr), buf.len())", "self.stats.update(self.socket.send_to(&buf[..buf.len() / 2], self.addr), buf.len())")], {'C05': ['A1/UdpWriteAdapter/sends-whole-buffer'], 'C13': ['R3-A1/UdpWriteAdapter/sends-whole-buffer']})
